@@ -11,6 +11,7 @@ import (
 	"runtime"
 	"sort"
 	"strings"
+	"sync"
 	"testing"
 	"time"
 
@@ -477,6 +478,171 @@ func TestVerifC07Child(t *testing.T) {
 	for i := 0; i < n; i++ {
 		vC07Scenario(r.Fork(), role, svc == 1, frames, focus)
 	}
+	if svc == 1 && focus == "" {
+		for i := 0; i < (n+1)/2; i++ {
+			vC07WhileHandlerRuns(r.Fork(), role)
+		}
+	}
+}
+
+func vC07Wait(d time.Duration, f func() bool) bool {
+	deadline := time.Now().Add(d)
+	for time.Now().Before(deadline) {
+		if f() {
+			return true
+		}
+		time.Sleep(time.Millisecond)
+	}
+	return f()
+}
+
+// vC07WhileHandlerRuns: frames of every kind arrive while a request is still inside the user's handler. The dispatcher
+// must keep taking them, the held request must be answered once its handler returns, and the endpoint must then still
+// serve a call and close.
+func vC07WhileHandlerRuns(r *vRand, role string) {
+	var srv *vSrvEnd
+	var cli *vCliEnd
+	var tr *vFakeTr
+	var impl *vImpl
+	if role == "Srv" {
+		srv = vNewSrvEnd(true)
+		tr, impl = srv.tr, srv.impl
+	} else {
+		cli = vNewCliEnd(true)
+		tr, impl = cli.tr, cli.impl
+	}
+	impl.mu.Lock()
+	impl.hold = true
+	impl.mu.Unlock()
+	time.Sleep(2 * time.Millisecond)
+	base := runtime.NumGoroutine()
+	pendingIDs := func() []string {
+		if srv != nil {
+			return srv.pendingIDs(srv.key)
+		}
+		return cli.pendingIDs()
+	}
+	// two calls of this endpoint towards its peer are pending; somebody receives for them
+	stopRecv := make(chan struct{})
+	var recvWG sync.WaitGroup
+	for i := 0; i < 2; i++ {
+		id := uuid.NewString()
+		var ch <-chan *message.Response
+		if srv != nil {
+			srv.s.mu.Lock()
+			ch = srv.s.registerMethodCall(srv.key, id)
+			srv.s.mu.Unlock()
+		} else {
+			cli.cc.mu.Lock()
+			ch = cli.cc.registerMethodCall(context.Background(), id)
+			cli.cc.mu.Unlock()
+		}
+		recvWG.Add(1)
+		go func() {
+			defer recvWG.Done()
+			for {
+				select {
+				case <-ch:
+				case <-stopRecv:
+					return
+				}
+			}
+		}()
+	}
+	heldID, heldTok := uuid.NewString(), uuid.NewString()
+	pl, _ := proto.Marshal(vAppMsg(heldTok, []byte("held"), ""))
+	var fed []string
+	c := vCase{Class: "while-handler-runs", Info: map[string]interface{}{"role": role}}
+	feed := func(frame []byte, class string) bool {
+		fed = append(fed, class+":"+vHexShort(frame))
+		if vFeed(tr, frame) != nil || vFeed(tr, vC07Sentinel) != nil {
+			c.Fail = "wedged-while-handler-runs"
+			c.Info.(map[string]interface{})["parked"] = vParked()
+			return false
+		}
+		return true
+	}
+	ok := feed(vFrame(&message.Message{Exchange: &message.Message_Request{Request: &message.Request{Method: "Echo", CallId: heldID, Payload: pl}}}), "held-request")
+	if ok {
+		ok = vC07Wait(2*time.Second, func() bool { return len(impl.peek()) >= 1 })
+		if !ok {
+			c.Fail = "request-not-dispatched"
+		}
+	}
+	n := 3 + r.Intn(5)
+	for i := 0; ok && i < n; i++ {
+		var frame []byte
+		var class string
+		switch {
+		case i == 0 || r.Intn(4) == 0:
+			// a response nobody waits for
+			frame, class = vFrame(&message.Message{Exchange: &message.Message_Response{Response: &message.Response{CallId: uuid.NewString(), Payload: []byte("stray")}}}), "stray-response"
+		case r.Intn(3) == 0:
+			// a quick request: its handler is held too and released with the rest
+			q, _ := proto.Marshal(vAppMsg(uuid.NewString(), []byte("quick"), ""))
+			frame, class = vFrame(&message.Message{Exchange: &message.Message_Request{Request: &message.Request{Method: "Other", CallId: uuid.NewString(), Payload: q}}}), "request"
+		default:
+			frame, class = vGenFrame(r, pendingIDs(), "")
+		}
+		ok = feed(frame, class)
+	}
+	// every handler may return now
+	impl.mu.Lock()
+	impl.hold = false
+	var toks []string
+	for k := range impl.gate {
+		toks = append(toks, k)
+	}
+	impl.mu.Unlock()
+	for _, k := range toks {
+		impl.release(k)
+	}
+	if ok {
+		answered := vC07Wait(2*time.Second, func() bool {
+			for _, w := range tr.peekWrites() {
+				m := &message.Message{}
+				if proto.Unmarshal(w, m) == nil && m.GetResponse().GetCallId() == heldID {
+					return true
+				}
+			}
+			return false
+		})
+		if !answered {
+			c.Fail = "held-request-not-answered"
+			c.Info.(map[string]interface{})["parked"] = vParked()
+		}
+		vSettle(base + 2)
+	}
+	if ok && c.Fail == "" {
+		id := uuid.NewString()
+		q, _ := proto.Marshal(vAppMsg("probe", []byte("p"), ""))
+		impl.take()
+		tr.takeWrites()
+		err := vFeed(tr, vFrame(&message.Message{Exchange: &message.Message_Request{Request: &message.Request{Method: "Echo", CallId: id, Payload: q}}}))
+		if err == nil {
+			err = vFeed(tr, vC07Sentinel)
+		}
+		vSettle(base + 2)
+		if h, w := impl.take(), tr.takeWrites(); err != nil || len(h) != 1 || len(w) != 1 {
+			c.Fail = "stops-serving"
+		}
+	}
+	close(stopRecv)
+	closed := false
+	if cli != nil {
+		closed = vGaWithin(4*time.Second, func() { cli.cc.Close() })
+	} else {
+		closed = vGaWithin(4*time.Second, func() { srv.s.Stop() })
+		close(srv.done)
+	}
+	if !closed && c.Fail == "" {
+		c.Fail = "close-hangs-after-frames"
+		c.Info.(map[string]interface{})["parked"] = vParked()
+	}
+	c.Sig = "while/" + role + "/" + strings.Join(fed, ",")
+	c.Info.(map[string]interface{})["frames"] = fed
+	c.Info.(map[string]interface{})["outcome"] = fmt.Sprintf("fail=%q closed=%v", c.Fail, closed)
+	vEmit(c)
 }
 
 func TestVerifC07(t *testing.T) {
